@@ -61,6 +61,18 @@ def c10():
         (0, "d", "self.Later().fb", 0, 6, [sel(files, "aA", "func Later", 0, 5)], {"dotted", "right"}, "the forward-declared method itself resolves"),
         (0, "d", "self.fa.fb", 0, 8, [sel(files, "aB", "fb : int4", 0, 0, 2)], {"dotted", "right"}, "fields are declared before the methods"),
     ]))
+    # the same through a descendant: the chain of aD reaches the class under annotation (aA), whose later
+    # method is skipped, and lands on the grandparent's declaration -> another class, a wrong target
+    G = "class aG\nfunc Get return aX\nendfunc\n"
+    A = "class aA(aG)\n\nproc First\n   var v : aD\n   v.Get().fm\nendproc\n\nfunc Get return aY override\nendfunc\n"
+    D = "class aD(aA)\n"
+    X = "class aX\nfm : int4\n"
+    Y = "class aY\nfm : int4\n"
+    files = [("aA", A), ("aG", G), ("aD", D), ("aX", X), ("aY", Y)]
+    cases.append(case("finding-forward-through-descendant", files, [
+        (0, "d", "v.Get().fm", 0, 9, [sel(files, "aY", "fm : int4", 0, 0, 2)], {"forward", "dotted", "right"}, "member of the result of an override declared further down, reached through a descendant"),
+        (0, "d", "v.Get().fm", 0, 3, [sel(files, "aA", "func Get", 0, 5), sel(files, "aG", "func Get", 0, 5)], {"dotted", "right", "overridden"}, "the override itself and the overridden declaration"),
+    ]))
     # --- finding: a field / procedure of a used entity answers for a plain identifier
     A = ("class aA\n\nuses aM\n\nproc First\n   ModProc\n   cModConst\n   fModField = 1\nendproc\n")
     M = "module aM\nconst cModConst = 1\nfModField : int4\nproc ModProc\nendproc\n"
@@ -69,6 +81,13 @@ def c10():
         (0, "d", "   ModProc", 0, 4, [], {"uses-member", "plain"}, "procedure of a used module, unqualified"),
         (0, "d", "   fModField", 0, 4, [], {"uses-member", "plain"}, "field of a used module, unqualified"),
         (0, "d", "   cModConst", 0, 4, [sel(files, "aM", "cModConst", 0, 0)], {"plain", "uses-const"}, "constant of a used module"),
+    ]))
+    A = ("class aA\n\nuses aM, aN\n\nproc First\n   cBoth\nendproc\n")
+    M = "module aM\nproc cBoth\nendproc\n"
+    N = "module aN\nconst cBoth = 1\n"
+    files = [("aA", A), ("aM", M), ("aN", N)]
+    cases.append(case("finding-uses-member-hides-constant", files, [
+        (0, "d", "   cBoth", 0, 4, [sel(files, "aN", "cBoth", 0, 0)], {"uses-member", "plain"}, "a procedure of the first used module hides the constant of the second"),
     ]))
     # --- excluded edge cases (WellFormedWs): correspondence only
     A = ("class aA\n\nproc First\n   fLate\n   cLate\n   self.fLate\nendproc\n\nfLate : int4\nuses aLate\n\nproc Second\n   fLate\n   cLate\nendproc\n")
